@@ -11,7 +11,7 @@ RULE = ("stores built from the C13 record pool plus records with hostile owner n
 CASE_SECS = 20
 CANNOT_EXHIBIT = ["the receive threads, RwLock poisoning and multicast sockets themselves: the loop bodies are driven through the "
                   "cfg(simple_dns_verif) wrappers; a panic there is what would kill the thread / poison the lock",
-                  "the tokio (async) twins of the sync services (same build_reply, store and codec; their own glue is not driven)"]
+                  "the tokio (async) services: their copy of add_response_to_resources IS driven (every ingesting case is run through both the sync and the tokio listener and the outputs must be identical); their socket loops are not"]
 SVC = [b"_srv", b"_tcp", b"local"]
 ME = [b"me"] + SVC
 
